@@ -466,3 +466,39 @@ def run_pattern_stream(ck, ks, rng, n, base):
             ck.disagree('Lean matcher and re disagree on %s.fullmatch' % PATTERN_NAMES[k],
                         {'op': 'fullmatch', 'case': PATTERN_NAMES[k], 'text': l, 'model': model, 'impl': real})
     return matched
+
+
+def check_rewritten_table_file(ck, label, files, decode, rng, rounds):
+    """One process, ONE path, a table file that is rewritten between decodes: every decode must use the table that is in the
+    file NOW.  `files` = paths of table files that were already compared with the model; `decode(path)` decodes a fixed sample
+    with the table file at `path`.  The content of two of them is copied in turn to one shared path (same name, and the second
+    one is given the first one's size-preserving timestamps) and the result through the shared path must be the result through
+    the original path, which the model has vouched for."""
+    import os
+    import shutil
+    if len(files) < 2:
+        return
+    shared = os.path.join(os.path.dirname(files[0]), 'shared_table_file_' + label)
+    for _ in range(rounds):
+        a, b = rng.sample(files, 2)
+        seq = [a, b, a] if rng.random() < 0.5 else [a, b]
+        want = {p: decode(p) for p in set(seq)}
+        st = None
+        for i, src in enumerate(seq):
+            shutil.copyfile(src, shared)
+            if st is not None:
+                os.utime(shared, ns=(st.st_atime_ns, st.st_mtime_ns))      # a rewrite within the same clock tick
+            st = os.stat(shared)
+            got = decode(shared)
+            ck.case(key=('rewritten', label, open(src, 'rb').read(), i))
+            ck.count('table file rewritten between decodes')
+            if got != want[src]:
+                k = next((j for j in range(min(len(got), len(want[src]))) if got[j] != want[src][j]), min(len(got), len(want[src])))
+                ck.fail('the decode does not use the table that is in the file now (the same path held another table during an earlier decode)',
+                        {'op': 'rewritten-table-file', 'table': label, 'sequence': [open(p).read()[:2000] for p in seq[:i + 1]], 'step': i,
+                         'first_difference': k, 'expected': want[src][k:k + 2], 'actual': got[k:k + 2]}, 'stale_table')
+                break
+    try:
+        os.remove(shared)
+    except OSError:
+        pass
